@@ -227,7 +227,7 @@ fn synthesise(rng: &mut Rng, thorough: bool) -> Vec<(String, Vec<u8>)> {
             // same-length, one shorter, one longer and the empty value)
             let hows: &[usize] = if thorough { &[0, 1, 2, 3, 4, 5, 6, 7, 8, 9] } else { &[0, 3, 5, 8, 9] };
             let states = 2 + hows.len();
-            for m in 0..if thorough { 8 } else { 7 } {
+            for m in 0..9 {
                 for s1 in 0..states {
                     for s2 in 0..states {
                         // the quick tier thins the product (all single/double combinations remain)
@@ -256,9 +256,20 @@ fn synthesise(rng: &mut Rng, thorough: bool) -> Vec<(String, Vec<u8>)> {
                                         v[0] ^= 1;
                                     }
                                 }
-                                _ => {
+                                7 => {
                                     v[2] ^= 0x10;
                                     v[9] ^= 0x10;
+                                }
+                                // two neighbouring bytes re-cut so that they read the same once each byte
+                                // is rendered without its leading zero (0x0X 0xYZ -> 0xXY 0x0Z)
+                                _ => {
+                                    if let Some(i) = (0..15).find(|i| v[*i] < 0x10 && v[*i + 1] >= 0x10) {
+                                        let (x, yz) = (v[i], v[i + 1]);
+                                        v[i] = (x << 4) | (yz >> 4);
+                                        v[i + 1] = yz & 0x0f;
+                                    } else {
+                                        v[7] ^= 0x01;
+                                    }
                                 }
                             }
                             sitems.push((tag::SIG_MD5, Val::Bin(v)));
@@ -275,7 +286,11 @@ fn synthesise(rng: &mut Rng, thorough: bool) -> Vec<(String, Vec<u8>)> {
                             }
                         }
                         let (se, ss) = if (m + s1) % 2 == 0 { layout_with_region(tag::SIG_REGION, &sitems) } else { layout(&sitems) };
-                        let bytes = enc_package(&enc_lead("digests"), &enc_header(&se, &ss), &hdr, payload);
+                        // the lead's signature-type field (covered by no digest) takes other values than 5
+                        let mut lead = enc_lead("digests");
+                        let st: u16 = [5, 5, 0, 1, 6, 0xffff][(m * 3 + s1 + s2 * 2) % 6];
+                        lead[78..80].copy_from_slice(&st.to_be_bytes());
+                        let bytes = enc_package(&lead, &enc_header(&se, &ss), &hdr, payload);
                         out.push((format!("synth:{plabel}:md5={m},sha1={s1},sha256={s2}"), bytes));
                     }
                 }
